@@ -2031,6 +2031,16 @@ def _has_af(x):
     return not isinstance(x, (ndarray, generic)) and hasattr(x, "__array_function__")
 
 
+def _method_fallback(a, name, axis):
+    """numpy's _wrapreduction: an object that is not an ndarray and has a method of the reduction's name gets that method called"""
+    if isinstance(a, (ndarray, generic, list, tuple, builtins.int, builtins.float, builtins.bool, SymPy)) or _has_af(a):
+        return None
+    m = getattr(a, name, None)
+    if m is None or not callable(m):
+        return None
+    return lambda: m(axis=axis, out=None)
+
+
 def concatenate(arrays, axis=0, dtype=None):
     arrays = list(arrays)
     if _py_any(_has_af(a) for a in arrays):
@@ -2128,12 +2138,18 @@ def sum(a, axis=None, dtype=None, keepdims=False):
         if axis is not None:
             kw["axis"] = axis
         return _dispatch(sum, (a,), kw)
+    fb = _method_fallback(a, "sum", axis)
+    if fb is not None:
+        return fb()
     return add.reduce(asarray(a), axis=axis, dtype=dtype, keepdims=keepdims)
 
 
 def all(a, axis=None):
     if _has_af(a):
         return _dispatch(all, (a,), {} if axis is None else {"axis": axis})
+    fb = _method_fallback(a, "all", axis)
+    if fb is not None:
+        return fb()
     if isinstance(a, builtins.bool):
         return a
     return logical_and.reduce(asarray(a), axis=axis)
@@ -2142,6 +2158,9 @@ def all(a, axis=None):
 def any(a, axis=None):
     if _has_af(a):
         return _dispatch(any, (a,), {} if axis is None else {"axis": axis})
+    fb = _method_fallback(a, "any", axis)
+    if fb is not None:
+        return fb()
     if isinstance(a, builtins.bool):
         return a
     return logical_or.reduce(asarray(a), axis=axis)
@@ -2150,12 +2169,18 @@ def any(a, axis=None):
 def max(a, axis=None):
     if _has_af(a):
         return _dispatch(max, (a,), {} if axis is None else {"axis": axis})
+    fb = _method_fallback(a, "max", axis)
+    if fb is not None:
+        return fb()
     return maximum.reduce(asarray(a), axis=axis)
 
 
 def min(a, axis=None):
     if _has_af(a):
         return _dispatch(min, (a,), {} if axis is None else {"axis": axis})
+    fb = _method_fallback(a, "min", axis)
+    if fb is not None:
+        return fb()
     return minimum.reduce(asarray(a), axis=axis)
 
 
@@ -2521,3 +2546,83 @@ def ascontiguousarray(a, dtype=None):
     if a._contig:
         return a
     return ndarray(_Store(a._cells()), list(range(a.size)), a.shape, a.dtype)
+
+
+def histogram(a, bins=10, range=None, density=None, weights=None):
+    """Uniform bins over an explicit or data-derived range; integer data (cells symbolic), integer weights (symbolic) or none.
+    Bin edges are concrete IEEE doubles computed as numpy's linspace computes them (a data-derived range is made concrete by forking);
+    bin membership and the weighted counts are symbolic integer terms.  With density the counts are made concrete by forking and the
+    quotients n / db / n.sum() are computed in IEEE double arithmetic."""
+    if _has_af(a):
+        return _dispatch(histogram, (a,), dict(bins=bins, range=range, density=density, weights=weights), args=(a,))
+    import math
+    a = asarray(a)
+    if a.dtype.kind not in "iub":
+        raise ShimUnsupported("histogram of non-integer data")
+    def num(c, dt):
+        if is_sym(c) and z3.is_bv(c):
+            return _bv_to_int(c) if dt.kind == "i" else z3.BV2Int(c, is_signed=False)
+        if is_sym(c) and z3.is_bool(c):
+            return z3.If(c, 1, 0)
+        return c if is_sym(c) else builtins.int(c)
+    xs = [num(c, a.dtype) for c in a.ravel()._cells()]
+    w = None
+    if weights is not None:
+        wa = asarray(weights)
+        if wa.shape != a.shape:
+            raise ValueError("weights should have the same shape as a.")
+        if wa.dtype.kind not in "iu":
+            raise ShimUnsupported("histogram with non-integer weights")
+        w = [num(c, wa.dtype) for c in wa.ravel()._cells()]
+    if not isinstance(bins, builtins.int) or isinstance(bins, builtins.bool):
+        raise ShimUnsupported("histogram with explicit bin edges")
+    if bins < 1:
+        raise ValueError("`bins` must be positive, when an integer")
+    if range is not None:
+        lo, hi = range
+        lo, hi = builtins.float(lo), builtins.float(hi)
+        if lo > hi:
+            raise ValueError("max must be larger than min in range parameter.")
+    elif not xs:
+        lo, hi = 0.0, 1.0
+    else:
+        mn, mx = xs[0], xs[0]
+        for c in xs[1:]:
+            mn = _ite(_cmp("le", mn, c, _I64), mn, c)
+            mx = _ite(_cmp("ge", mx, c, _I64), mx, c)
+        lo = builtins.float(E().concretize(mn) if is_sym(mn) else mn)
+        hi = builtins.float(E().concretize(mx) if is_sym(mx) else mx)
+    if lo == hi:
+        lo, hi = lo - 0.5, hi + 0.5
+    step = (hi - lo) / bins
+    edges = [i * step + lo for i in builtins.range(bins + 1)]
+    edges[-1] = hi
+    # integer v: v >= e  <=>  v >= ceil(e);  v < e  <=>  v < ceil(e);  v <= e  <=>  v <= floor(e)
+    counts = []
+    for i in builtins.range(bins):
+        acc = 0
+        for j, v in enumerate(xs):
+            lo_ok = _cmp("ge", v, math.ceil(edges[i]), _I64)
+            hi_ok = _cmp("le", v, math.floor(edges[i + 1]), _I64) if i == bins - 1 else _cmp("lt", v, math.ceil(edges[i + 1]), _I64)
+            acc = _arith("add", acc, _ite(_and(lo_ok, hi_ok), 1 if w is None else w[j], 0))
+        counts.append(acc)
+    e_arr = ndarray(_Store(list(edges)), list(builtins.range(bins + 1)), (bins + 1,), _F64)
+    if not density:
+        return ndarray(_Store(counts), list(builtins.range(bins)), (bins,), _I64), e_arr
+    n = [builtins.float(E().concretize(c) if is_sym(c) else c) for c in counts]
+    tot = 0.0
+    for c in n:
+        tot += c
+    dens = []
+    for i, c in enumerate(n):
+        db = edges[i + 1] - edges[i]
+        try:
+            q = c / db
+        except ZeroDivisionError:
+            q = math.nan if c == 0 else math.copysign(math.inf, c)
+        try:
+            q = q / tot
+        except ZeroDivisionError:
+            q = math.nan if q == 0 or q != q else math.copysign(math.inf, q)
+        dens.append(q)
+    return ndarray(_Store(dens), list(builtins.range(bins)), (bins,), _F64), e_arr
